@@ -128,6 +128,53 @@ pub fn run(ctx: &Ctx) {
     let nt = C14_TARGETS.len();
 
     let n_full = t.pick(3, 4);
+    // (b) family documents and their single-token mutations
+    let mut docs: Vec<(String, String)> = Vec::new();
+    macro_rules! collect {
+        ($($ty:ident),*) => { $( for v in <$ty as Fam>::values(0) { if let Ok(x) = ser(&v, SerCfg::plain()) { docs.push((<$ty as Fam>::NAME.to_string(), x)); } } )* };
+    }
+    crate::for_each_type!(collect);
+    docs.sort();
+    docs.dedup();
+    let max_cuts = t.pick(1, 2);
+    ctx.layer("family_documents", 2, docs.len() as u64, json!({"documents": docs.len(), "mutations": "every single-token deletion and duplication", "max_cuts": max_cuts}), |i, acc| {
+        let (ty, doc) = &docs[i as usize];
+        let lx = lex(doc.as_bytes());
+        let mut variants: Vec<(String, bool)> = vec![(doc.clone(), true)];
+        for tk in &lx.toks {
+            let mut del = doc.as_bytes()[..tk.span.start].to_vec();
+            del.extend_from_slice(&doc.as_bytes()[tk.span.end..]);
+            let mut dup = doc.as_bytes()[..tk.span.end].to_vec();
+            dup.extend_from_slice(&doc.as_bytes()[tk.span.start..]);
+            for v in [del, dup] {
+                if let Ok(s) = String::from_utf8(v) {
+                    variants.push((s, false));
+                }
+            }
+        }
+        for (vdoc, original) in &variants {
+            let scheds = if *original { schedules(vdoc.len(), 10, max_cuts) } else { schedules(vdoc.len(), 10, 1) };
+            for sc in &scheds {
+                acc.evaluations += 1;
+                acc.traces += 1;
+                acc.transitions += 2;
+                match compare_family(ty, vdoc, sc) {
+                    Ok(ok) => {
+                        if ok {
+                            acc.nt_count += 1;
+                        }
+                        if *original && !ok {
+                            acc.count("valid_document_failed_on_both_sides", 1);
+                        }
+                    }
+                    Err(what) => acc.violation((2, i), format!("{:?} as {} with reader schedule {}: {}", vdoc, ty, sc.to_json(), what), json!({"doc": vdoc, "family_type": ty, "script": sc.to_json()})),
+                }
+            }
+        }
+    });
+    stretch_layer(ctx);
+    ns_layer(ctx);
+    // the two big layers last: on a saturated machine a time cap then costs their tail, not a whole small layer
     ctx.layer("tokens.all_schedules", 0, count_upto(k, n_full) * 2, json!({"tokens": toks, "max_tokens": n_full, "targets": C14_TARGETS}), |i, acc| {
         let mut d = Vec::new();
         decode_upto(k, n_full, i / 2, &mut d);
@@ -193,53 +240,6 @@ pub fn run(ctx: &Ctx) {
             }
         }
     });
-
-    // (b) family documents and their single-token mutations
-    let mut docs: Vec<(String, String)> = Vec::new();
-    macro_rules! collect {
-        ($($ty:ident),*) => { $( for v in <$ty as Fam>::values(0) { if let Ok(x) = ser(&v, SerCfg::plain()) { docs.push((<$ty as Fam>::NAME.to_string(), x)); } } )* };
-    }
-    crate::for_each_type!(collect);
-    docs.sort();
-    docs.dedup();
-    let max_cuts = t.pick(1, 2);
-    ctx.layer("family_documents", 2, docs.len() as u64, json!({"documents": docs.len(), "mutations": "every single-token deletion and duplication", "max_cuts": max_cuts}), |i, acc| {
-        let (ty, doc) = &docs[i as usize];
-        let lx = lex(doc.as_bytes());
-        let mut variants: Vec<(String, bool)> = vec![(doc.clone(), true)];
-        for tk in &lx.toks {
-            let mut del = doc.as_bytes()[..tk.span.start].to_vec();
-            del.extend_from_slice(&doc.as_bytes()[tk.span.end..]);
-            let mut dup = doc.as_bytes()[..tk.span.end].to_vec();
-            dup.extend_from_slice(&doc.as_bytes()[tk.span.start..]);
-            for v in [del, dup] {
-                if let Ok(s) = String::from_utf8(v) {
-                    variants.push((s, false));
-                }
-            }
-        }
-        for (vdoc, original) in &variants {
-            let scheds = if *original { schedules(vdoc.len(), 10, max_cuts) } else { schedules(vdoc.len(), 10, 1) };
-            for sc in &scheds {
-                acc.evaluations += 1;
-                acc.traces += 1;
-                acc.transitions += 2;
-                match compare_family(ty, vdoc, sc) {
-                    Ok(ok) => {
-                        if ok {
-                            acc.nt_count += 1;
-                        }
-                        if *original && !ok {
-                            acc.count("valid_document_failed_on_both_sides", 1);
-                        }
-                    }
-                    Err(what) => acc.violation((2, i), format!("{:?} as {} with reader schedule {}: {}", vdoc, ty, sc.to_json(), what), json!({"doc": vdoc, "family_type": ty, "script": sc.to_json()})),
-                }
-            }
-        }
-    });
-    stretch_layer(ctx);
-    ns_layer(ctx);
 }
 
 /// Namespace scopes under skipping: the only place the deserializer resolves names is `xsi:nil`; whether
